@@ -95,8 +95,10 @@ func docValue(v reflect.Value) any {
 	if err != nil {
 		panic(err)
 	}
+	dec := json.NewDecoder(strings.NewReader(string(b)))
+	dec.UseNumber() // integers keep every digit
 	var doc any
-	if err := json.Unmarshal(b, &doc); err != nil {
+	if err := dec.Decode(&doc); err != nil {
 		panic(err)
 	}
 	return doc
